@@ -1,6 +1,7 @@
 import AiutiVerif.Batcher.Outcome
 import AiutiVerif.Batcher.Invariant
 import AiutiVerif.Batcher.NoDup
+import AiutiVerif.Batcher.Cancel
 /-!
 # Batcher property theorems (C04, C09, C10, C11)
 
@@ -120,6 +121,106 @@ theorem C09_cancel_touches_only_the_caller (s : St) (t cid : Nat) :
     simpa using this
   | some w =>
     exact ⟨rfl, Or.inr rfl, rfl, rfl, rfl, rfl, rfl, rfl, rfl, rfl, rfl, rfl, rfl, rfl⟩
+
+/-- the `done` events of one caller, in order: (instant, outcome) -/
+def doneOf (c : Nat) : List Out → List (Nat × Outcome)
+  | [] => []
+  | .done t c' o :: r => if c' = c then (t, o) :: doneOf c r else doneOf c r
+  | .batch _ _ _ :: r => doneOf c r
+
+/-- the batches the function was invoked with, in order: (instant, batch index, keys) -/
+def batchesOf : List Out → List (Nat × Nat × List Nat)
+  | [] => []
+  | .batch t i ks :: r => (t, i, ks) :: batchesOf r
+  | .done _ _ _ :: r => batchesOf r
+
+theorem doneOf_filter (X : Nat → Bool) (c : Nat) (hc : X c = false) :
+    ∀ l : List Out, doneOf c (l.filter (keepOut X)) = doneOf c l := by
+  intro l
+  induction l with
+  | nil => rfl
+  | cons o r ih =>
+    cases o with
+    | batch t i ks => simp only [List.filter_cons, keepOut, if_true, doneOf]; exact ih
+    | done t c' o =>
+      by_cases hcc : c' = c
+      · subst hcc
+        have : keepOut X (.done t c' o) = true := by simp [keepOut, hc]
+        simp only [List.filter_cons, this, if_true, doneOf]
+        rw [ih]
+      · by_cases hk : keepOut X (.done t c' o) = true
+        · simp only [List.filter_cons, hk, if_true, doneOf, hcc, if_false]; exact ih
+        · simp only [List.filter_cons, hk, doneOf, hcc, if_false]; exact ih
+
+theorem batchesOf_filter (X : Nat → Bool) :
+    ∀ l : List Out, batchesOf (l.filter (keepOut X)) = batchesOf l := by
+  intro l
+  induction l with
+  | nil => rfl
+  | cons o r ih =>
+    cases o with
+    | batch t i ks => simp only [List.filter_cons, keepOut, if_true, batchesOf]; rw [ih]
+    | done t c' o =>
+      by_cases hk : keepOut X (.done t c' o) = true
+      · simp only [List.filter_cons, hk, if_true, batchesOf]; exact ih
+      · simp only [List.filter_cons, hk, batchesOf]; exact ih
+
+/-- **C09, for every program of inputs.**  Take any set `X` of callers and any two programs that
+differ only in the cancellations of callers in `X` — at each cancellation position one program
+cancels one caller of `X`, the other program another (a caller id that never called makes the
+cancellation a no-op, so this covers "cancelled at that moment" against "never cancelled").  Then,
+from any starting state, through the whole run *and* the final drain: the batch function is
+invoked with the same batches at the same instants, and every caller outside `X` is answered at
+the same instants with the same outcomes — callers in the same batch, callers sharing the
+cancelled caller's key, and all later callers included.  Everything else in the machine (queue,
+assembling / running batches, futures, retention table, eviction timers, clock) is identical too
+(`strip_runProgram`). -/
+theorem C09_cancellations_invisible (X : Nat → Bool) (s0 : St) (a b : List In) (h : CancelVariant X a b) :
+    batchesOf (runProgram s0 a).outs = batchesOf (runProgram s0 b).outs ∧
+    (∀ c, X c = false → doneOf c (runProgram s0 a).outs = doneOf c (runProgram s0 b).outs) ∧
+    (runProgram s0 a).futs = (runProgram s0 b).futs ∧
+    (runProgram s0 a).retention = (runProgram s0 b).retention ∧
+    (runProgram s0 a).running = (runProgram s0 b).running ∧
+    (runProgram s0 a).queue = (runProgram s0 b).queue ∧
+    (runProgram s0 a).waiting.filter (fun w => !X w.1) = (runProgram s0 b).waiting.filter (fun w => !X w.1) := by
+  have hs := strip_runProgram X h s0
+  have ho : (runProgram s0 a).outs.filter (keepOut X) = (runProgram s0 b).outs.filter (keepOut X) :=
+    congrArg St.outs hs
+  have h1 : (strip X (runProgram s0 a)).futs = (strip X (runProgram s0 b)).futs := congrArg St.futs hs
+  have h2 : (strip X (runProgram s0 a)).retention = (strip X (runProgram s0 b)).retention := congrArg St.retention hs
+  have h3 : (strip X (runProgram s0 a)).running = (strip X (runProgram s0 b)).running := congrArg St.running hs
+  have h4 : (strip X (runProgram s0 a)).queue = (strip X (runProgram s0 b)).queue := congrArg St.queue hs
+  have h5 : (strip X (runProgram s0 a)).waiting = (strip X (runProgram s0 b)).waiting := congrArg St.waiting hs
+  refine ⟨?_, ?_, h1, h2, h3, h4, h5⟩
+  · rw [← batchesOf_filter X (runProgram s0 a).outs, ← batchesOf_filter X (runProgram s0 b).outs, ho]
+  · intro c hc
+    rw [← doneOf_filter X c hc (runProgram s0 a).outs, ← doneOf_filter X c hc (runProgram s0 b).outs, ho]
+
+/-- The same at every instant of the run, not only at its end. -/
+theorem C09_cancellations_invisible_prefix (X : Nat → Bool) (s0 : St) (a b : List In) (h : CancelVariant X a b) :
+    batchesOf (a.foldl applyIn s0).outs = batchesOf (b.foldl applyIn s0).outs ∧
+    (∀ c, X c = false → doneOf c (a.foldl applyIn s0).outs = doneOf c (b.foldl applyIn s0).outs) := by
+  have hs := strip_foldl X h s0 s0 rfl
+  have ho : (a.foldl applyIn s0).outs.filter (keepOut X) = (b.foldl applyIn s0).outs.filter (keepOut X) :=
+    congrArg St.outs hs
+  refine ⟨?_, ?_⟩
+  · rw [← batchesOf_filter X (a.foldl applyIn s0).outs, ← batchesOf_filter X (b.foldl applyIn s0).outs, ho]
+  · intro c hc
+    rw [← doneOf_filter X c hc (a.foldl applyIn s0).outs, ← doneOf_filter X c hc (b.foldl applyIn s0).outs, ho]
+
+/-- non-vacuity: callers 0 and 1 share key 7, caller 2 has key 8, all in one batch that runs from
+t = 10 (timer) for 5; caller 0 — the one that created the shared future — is cancelled at t = 12,
+mid-batch, against "cancel of the never-calling id 99".  Callers 1 and 2 get their values at 15. -/
+def cancelSt : St := { maxb := 3, maxc := 1, bt := 10, ret := 0, plan := demoPlanK }
+def cancelInsA : List In := [.call 0 0 0 7, .call 1 1 0 7, .call 2 2 5 8, .cancel 12 0, .call 40 3 0 7]
+def cancelInsB : List In := [.call 0 0 0 7, .call 1 1 0 7, .call 2 2 5 8, .cancel 12 99, .call 40 3 0 7]
+example : CancelVariant (fun c => c == 0 || c == 99) cancelInsA cancelInsB :=
+  .same _ (.same _ (.same _ (.cancels 12 0 99 rfl rfl (.same _ .nil))))
+example : doneOf 0 (runProgram cancelSt cancelInsA).outs = [(12, .cancelled)] := by decide +kernel
+example : (doneOf 1 (runProgram cancelSt cancelInsA).outs).length = 1 ∧
+    (doneOf 2 (runProgram cancelSt cancelInsA).outs).length = 1 ∧
+    (doneOf 3 (runProgram cancelSt cancelInsA).outs).length = 1 ∧
+    (batchesOf (runProgram cancelSt cancelInsA).outs).length = 2 := by decide +kernel
 
 /-! ## C11 — same-key requests share, then are computed afresh -/
 
